@@ -1,6 +1,7 @@
 from __future__ import annotations
 
 import argparse
+import sys
 from pathlib import Path
 from typing import TYPE_CHECKING
 
@@ -133,7 +134,9 @@ def _get_toml_override(
 
 def _toml_error(exc: Exception, *, exit_on_error: bool) -> NoReturn:
     if exit_on_error:
-        error.fatal(f"error parsing project toml: {error}")
+        # NOTE The config singleton does not exist yet, so `error.fatal` is unusable
+        print(f"fatal: error parsing project toml: {exc}", file=sys.stderr)
+        sys.exit(1)
     raise exc
 
 
